@@ -6,7 +6,7 @@ DATA_POOL = [
     {"a": 1, "b": "bee", "c": True, "d": None, "l": [{"k": "x", "p": 1}, {"k": "y", "p": 2}], "o": {"p": 5, "q": {"k": "z"}, "k": "ok"},
      "f": {"$": "fn", "name": "id"}, "n": 1, "item": "DI", "index": "DX", "x": {"$": "undefined"}, "k": "kk", "g": {"$": "fn", "name": "add"},
      "it": "D-it", "ix": "D-ix"},
-    {"a": 0, "b": "", "c": False, "d": [1, 2], "l": [], "o": {}, "f": {"$": "fn", "name": "k1"}, "n": 0, "item": {"k": "data-item"}, "index": 7,
+    {"a": 0, "b": "x\U0001F600", "c": False, "d": [1, 2], "l": [], "o": {}, "f": {"$": "fn", "name": "k1"}, "n": 0, "item": {"k": "data-item"}, "index": 7,
      "x": {"p": {"q": 1}}, "k": "", "g": {"$": "fn", "name": "str"}, "it": None, "ix": 3},
     {"a": "A", "b": 2, "c": 1, "d": {"p": 0}, "l": [{"k": "x", "p": 1}, {"k": "x", "p": 2}, {"k": "z"}], "o": {"p": None, "k": 0, "zz": [1]},
      "f": {"$": "fn", "name": "add"}, "n": 2, "item": 5, "index": "i", "x": "xs", "k": "p", "g": {"$": "fn", "name": "len"}, "it": [1], "ix": {"$": "nan"}},
